@@ -83,3 +83,83 @@ Proof.
      cbn [fst snd] in *; destruct IH as [IH1 IH2]; split; [exact IH1|];
      rewrite !filter_app, Hf1, IH2; reflexivity).
 Qed.
+
+(* ---- when the plugin writes nothing inside OnEstablished the two runners perform exactly the same actions ---- *)
+Lemma nth18_header m t : nth 18 (prepend_header m t) 0 = t.
+Proof. unfold prepend_header, marker, put16. cbn. reflexivity. Qed.
+
+Lemma not_upd_notif n : (nth 18 (notif_encode n) 0 =? c_updateMessageType) = false.
+Proof. unfold notif_encode. rewrite nth18_header. vm_compute. reflexivity. Qed.
+Lemma not_upd_ka : (nth 18 keepalive_encode 0 =? c_updateMessageType) = false.
+Proof. unfold keepalive_encode. rewrite nth18_header. vm_compute. reflexivity. Qed.
+
+Local Arguments notif_encode : simpl never.
+Local Arguments keepalive_encode : simpl never.
+Local Arguments open_validate : simpl never.
+Local Arguments nth : simpl never.
+Local Arguments N.eqb : simpl never.
+Local Arguments N.ltb : simpl never.
+Local Arguments N.mul : simpl never.
+Local Arguments N.div : simpl never.
+
+Ltac no_upd :=
+  repeat (cbn [filter app teardown fst snd is_upd_write];
+          rewrite ?filter_app, ?not_upd_notif, ?not_upd_ka);
+  try reflexivity.
+
+Lemma conn_step_no_upd cf pl st i :
+  pl_est_writes pl = [] -> filter is_upd_write (snd (conn_step cf pl st i)) = [].
+Proof.
+  intros He. destruct st as [ph H n]. unfold conn_step. cbn [c_phase c_holdns c_nupd].
+  destruct ph; destruct i as [[[o|b|nn|]|nn|]| | | |]; unfold send_and_finish, finish; cbn [c_phase c_holdns c_nupd snd map];
+    rewrite ?He; cbn [map]; no_upd.
+  all: try (destruct (open_validate _ _ _ _); [no_upd|destruct (pl_on_open pl); no_upd;
+            match goal with |- context [if ?c =? 0 then _ else _] => destruct (c =? 0) end; no_upd]).
+  all: try (match goal with |- context [if ?c =? 0 then _ else _] => destruct (c =? 0) end; no_upd).
+  all: try (destruct (pl_handler pl n); no_upd; match goal with |- context [if ?c =? 0 then _ else _] => destruct (c =? 0) end; no_upd).
+Qed.
+
+Lemma count_upd_zero cf pl st i : pl_est_writes pl = [] -> count_upd (snd (conn_step cf pl st i)) = O.
+Proof. intros He. unfold count_upd. rewrite conn_step_no_upd by exact He. reflexivity. Qed.
+
+Lemma xstep_served_exact cf pl xs i xs' a :
+  pl_est_writes pl = [] -> xs_pending xs = [] -> no_timer i = true -> xstep_served cf pl xs i = (xs', a) ->
+  xs_pending xs' = [] /\ ts_conn (xs_t xs') = fst (conn_step cf pl (ts_conn (xs_t xs)) i)
+  /\ a = snd (conn_step cf pl (ts_conn (xs_t xs)) i).
+Proof.
+  intros He Hp Hn H. unfold xstep_served, xstep in H.
+  destruct (tstep_no_timer cf pl (xs_t xs) i Hn) as (ts' & Et & Hc). rewrite Et in H.
+  rewrite (count_upd_zero cf pl _ i He), Hp in H. cbn [repeat app length] in H.
+  destruct (est ts'); cbn [xs_pending length] in H;
+    match type of H with (let (_, _) := serve_all ?f cf pl ?x in _) = _ =>
+      destruct (serve_all f cf pl x) as [xs2 a2] eqn:E2 end;
+    injection H as <- <-; cbn [serve_all xstep est] in E2.
+  all: unfold xstep in E2; cbn [xs_t xs_pending nth_error] in E2; destruct (est ts'); injection E2 as <- <-;
+       cbn [xs_pending xs_t]; rewrite app_nil_r; repeat split; assumption.
+Qed.
+
+Theorem xrun_auto_exact cf pl : forall ins xs,
+  pl_est_writes pl = [] -> xs_pending xs = [] -> forallb no_timer ins = true ->
+  snd (xrun_auto cf pl xs ins) = snd (conn_run_auto cf pl (ts_conn (xs_t xs)) ins).
+Proof.
+  induction ins as [|i r IH]; intros xs He Hp Hn; cbn [xrun_auto conn_run_auto fst snd]; [reflexivity|].
+  cbn [forallb] in Hn. apply andb_true_iff in Hn as [Hi Hr].
+  destruct (xstep_served cf pl xs i) as [xs1 a1] eqn:E1.
+  destruct (xstep_served_exact _ _ _ _ _ _ He Hp Hi E1) as (Hp1 & Hc1 & Ha1).
+  destruct (conn_step cf pl (ts_conn (xs_t xs)) i) as [st1 b1] eqn:Ec1. cbn [fst snd] in Hc1, Ha1. subst a1.
+  rewrite Hc1.
+  assert (HA : forall xsA aA, xstep_served cf pl xs1 IApprove = (xsA, aA) ->
+            xs_pending xsA = [] /\ ts_conn (xs_t xsA) = fst (conn_step cf pl st1 IApprove)
+            /\ aA = snd (conn_step cf pl st1 IApprove)).
+  { intros xsA aA EA. rewrite <- Hc1. eapply xstep_served_exact; try eassumption. reflexivity. }
+  destruct (c_phase st1).
+  2,4: destruct (xstep_served cf pl xs1 IApprove) as [xsA aA] eqn:EA;
+       destruct (HA _ _ eq_refl) as (HpA & HcA & HaA);
+       destruct (conn_step cf pl st1 IApprove) as [stA bA]; cbn [fst snd] in HcA, HaA; subst aA;
+       specialize (IH xsA He HpA Hr); rewrite HcA in IH;
+       destruct (xrun_auto cf pl xsA r) as [xs2 a2]; destruct (conn_run_auto cf pl stA r) as [st2 b2];
+       cbn [fst snd] in *; rewrite IH; reflexivity.
+  all: specialize (IH xs1 He Hp1 Hr); rewrite Hc1 in IH;
+       destruct (xrun_auto cf pl xs1 r) as [xs2 a2]; destruct (conn_run_auto cf pl st1 r) as [st2 b2];
+       cbn [fst snd] in *; rewrite IH; reflexivity.
+Qed.
